@@ -23,6 +23,10 @@ ALPHABETS = {
     # r is not generatable: its REQUIRED attribute is declared after one with a default
     "required": (("a", "r"), {"a": {}, "r": {"attrs": {"d": {"default": 0}, "x": {}}}}),
     "inline": (("t", "text"), {"t": {"inline": True}}),
+    # a node type whose NAME is also used as a group name by other types: the exact name wins
+    "namegroup": (("a", "b", "c"), {"a": {}, "b": {"group": "a"}, "c": {"group": "a x"}}),
+    # r is generatable: all its attributes have defaults, one of them an explicit None
+    "defnone": (("a", "r"), {"a": {}, "r": {"attrs": {"d": {"default": None}, "e": {"default": 0}}}}),
 }
 
 
@@ -67,6 +71,8 @@ def units(tier, seed):
         add("nogroups", k, "all", 1 if k < 4 else (2 if k == 4 else 16))
     for k in range(1, 4 if q else 5):
         add("inline", k, "all", 1 if k < 4 else 4)
+        add("namegroup", k, "all", 1 if k < 4 else 4)
+        add("defnone", k, "all", 1 if k < 4 else 4)
     # deeper trees over the alphabet with a non-generatable type, ?,*,+ only (dead ends behind accepting states
     # need >= 6 syntax nodes, e.g. "a (a r)?")
     for k in range(5, (7 if q else 8) + 1):
